@@ -6,7 +6,9 @@ SPEC  ClusterAPIMC: for every environment (follower, default factors, metrics, b
       predicate EffectOK (allocation clause: Allocator!Good). A second run with the constants set to the pinned
       commit's behaviour (EqualsMode=ascoded, UpdateGuard=FALSE) must FAIL: its counterexample becomes a replay script.
 GEN   call histories from TLC -simulate on ClusterAPISim (re-pins identical to / one option away from stored entries,
-      updates, unpins of sharded content, typed pins, paths, metric changes) + a directed one-option sweep.
+      updates, unpins of sharded content, typed pins, paths, metric changes, BlockGet faults appearing and
+      disappearing) + a directed one-option sweep + directed sharded-unpin scripts with BlockGet fault injection
+      (cluster-DAG block failing / a shard block failing / none).
 R     each history is executed on a real Cluster; after each call Cluster.Pins(), result and LogPin/LogUnpin are recorded.
 V     TLC (ClusterAPITrace) evaluates EffectOK (property) and StepOK (transcription) on every recorded tuple.
 """
@@ -35,9 +37,39 @@ BLOCKS = [["d1", ["s1", "s2"]]]
 MS_GOOD = {"p1": "v1", "p2": "v0", "p3": "v2"}
 
 
-def env(follower=False, d=(1, 2), strat="asc", ms=None, blocks=None):
+def env(follower=False, d=(1, 2), strat="asc", ms=None, fail=()):
     return {"follower": follower, "dmin": d[0], "dmax": d[1], "strat": strat, "ms": dict(ms or MS_GOOD),
-            "paths": PATHS, "blocks": BLOCKS if blocks is None else blocks}
+            "paths": PATHS, "blocks": BLOCKS, "fail": list(fail)}
+
+
+def sharded(cids=("m1", "d1", "s1", "s2")):
+    def t(c, ty, d, f, al, rf):
+        return {"cid": c, "type": ty, "mode": "dir" if d == 0 else "rec", "depth": d, "rmin": f[0], "rmax": f[1],
+                "allocs": al, "name": "sh", "exp": "none", "meta": [], "orig": [], "ua": [], "upd": "", "ref": rf}
+    g = [t("m1", "meta", 0, (1, 2), [], "d1"), t("d1", "cdag", 0, (-1, -1), [], "m1"),
+         t("s1", "shard", 1, (1, 2), ["p1"], ""), t("s2", "shard", 1, (1, 2), ["p2", "p3"], "s1")]
+    return [e for e in g if e["cid"] in cids]
+
+
+def fault_scripts():
+    """Unpin of sharded content with BlockGet faults: cluster-DAG block failing, a shard block failing, none;
+    the fault appearing/disappearing between calls; a shard entry already missing from the pinset."""
+    out = []
+    other = {"cid": "c2", "type": "data", "mode": "rec", "depth": -1, "rmin": 1, "rmax": 2, "allocs": ["p2", "p1"],
+             "name": "n1", "exp": "f1", "meta": [["a", "x"]], "orig": [], "ua": [], "upd": "", "ref": ""}
+    um, up = {"op": "unpin", "cid": "m1"}, {"op": "unpinpath", "path": "/ipns/okm"}
+
+    def bf(*f):
+        return {"op": "blockfail", "fail": list(f)}
+    for first in (um, up):
+        for fail in (["d1"], ["s1"], ["s2", "d1"], ["s1", "s2"], []):
+            out.append({"src": "blockfault", "env": env(fail=fail), "pre": sharded() + [other],
+                        "steps": [first, um, bf(), up, um]})
+        out.append({"src": "blockfault", "env": env(), "pre": sharded() + [other],
+                    "steps": [bf("d1"), first, bf("s2"), {"op": "unpin", "cid": "s1"}, {"op": "unpin", "cid": "d1"}, first, um]})
+        out.append({"src": "blockfault", "env": env(fail=["d1"]), "pre": sharded(("m1", "d1", "s2")) + [other],
+                    "steps": [first, bf(), first]})
+    return out
 
 
 def with_dim(o, dim, v):
@@ -188,6 +220,7 @@ def generate(ctx):
         raise vcheck.Infra("simulation produced too few histories")
     sweep, fsteps = directed(rng)
     scripts += sweep
+    scripts += fault_scripts()
     # follower scripts on a loaded pinset (taken from a simulated history's initial context when there is one)
     ctxs = [s["pre"] for s in scripts if s["src"] == "sim" and len(s["pre"]) > 1]
     if ctxs:
